@@ -47,6 +47,9 @@ def judge(case, wd, sh):
         if run.error:
             sh.count('aborted-runs')
             sh.count('abort:%s@%s' % (run.error['type'], run.error['frame']))
+            if run.error['type'].startswith('Harness'):
+                sh.inconclusive.append('mode %s: %s' % (mode, run.error['msg']))
+                return
             if out:      # another mode of the same input terminated normally: the modes do not report the same alignments
                 sh.violation('mode-aborts-while-another-mode-succeeds:%s@%s' % (run.error['type'], run.error['frame']),
                              'mode %s aborted (%s: %s) although mode %s of the same input terminated normally' % (mode, run.error['type'], run.error['msg'], list(out)[0]), slim({'mode': mode}))
